@@ -19,7 +19,7 @@ argument was never seen in the logged run"): the run stops with status `aborted`
 Everything else is the code of minimize.py, statement by statement: clipping of the start point, the
 finite-difference probe points (forward/backward choice by the mid point of the box, the
 `(eps + x) - x` representability trick), the scaled bounds `dlower/dupper`, `H = hess + mu*I`, the candidate
-`x + D*dx`, Armijo's accept rule, the `mu` updates (Fletcher), the termination tests and statuses, the
+`clip(x + D*dx)`, Armijo's accept rule, the `mu` updates (Fletcher), the termination tests and statuses, the
 trace.  The two inner `while` loops have no bound in Python; the model gives them `innerFuel` (status
 `fuelOut` when exhausted – never observed; termination of the inner loops is not proved).
 -/
@@ -133,7 +133,7 @@ def regularize (hess : Mat α) (mu : α) : Mat α :=
   hess.zipIdx.map (fun (p : Vec α × Nat) =>
     p.1.zipIdx.map (fun (q : α × Nat) => q.1 + mu * (if q.2 = p.2 then one else zero)))
 
-/-- `xnew = x + D * dx` (not clipped) -/
+/-- `x + D * dx` (before the clip to the bounds that `least_squares` applies to it) -/
 def candidate (x D dx : Vec α) : Vec α :=
   List.zipWith (fun (p : α × α) d => p.1 + p.2 * d) (List.zip x D) dx
 
@@ -238,7 +238,8 @@ def searchStep (Q : Problem α) (x grad : Vec α) (hess : Mat α) (db : Option (
       let m := increaseMu Q.P mu
       .inr (m.1, m.2, calls, w')
   | some (.ok dx) =>
-    let xnew := candidate x Q.D dx
+    -- `xnew = x + D * dx; if bounds is not None: np.clip(xnew, bounds[0], bounds[1], out=xnew)`
+    let xnew := clipStart Q.bounds (candidate x Q.D dx)
     match Q.residual xnew with
     | none => .inl (.stopped (.aborted "residual") mu nr (calls ++ [xnew]))
     | some rnew =>
